@@ -1,7 +1,7 @@
 (* proofs for C06: reordering, sorting, aligning, copying and renaming keep every value and
    every metadata entry with its ids *)
 From Coq Require Import List Arith ZArith Lia Bool Permutation.
-From BiomV Require Import Base.Tree Base.ListUtil Base.Matrix Model.Table Model.Reorder.
+From BiomV Require Import Base.Tree Base.ListUtil Base.Matrix Model.Table Model.Orient Model.Reorder Proofs.OrientProofs.
 Import ListNotations.
 
 (* ---------------- small list facts ---------------- *)
@@ -54,17 +54,85 @@ Proof.
       * intros a b Ha Hb. apply Inj; right; assumption.
 Qed.
 
-Lemma pos_In x l i : pos x l = Some i -> In x l.
+Lemma pos_Some_In x l i : pos x l = Some i -> In x l.
 Proof.
   intros H. destruct (In_dec Z.eq_dec x l) as [Hi|Hn]; [exact Hi|].
   apply pos_None in Hn. congruence.
 Qed.
 
 Lemma In_pos x l : In x l -> exists i, pos x l = Some i.
+Proof. apply pos_In. Qed.
+
+(* ---------------- constructor normalisation of metadata (Model/Orient.v ctor_md) ---------------- *)
+Lemma md_falsy_cast m : md_falsy (cast_entry m) = md_falsy m.
 Proof.
-  intros H. destruct (pos x l) as [i|] eqn:E; [exists i; reflexivity|].
-  apply pos_None in E. contradiction.
+  unfold cast_entry. destruct (tree_eqb m md_none) eqn:E; [|reflexivity].
+  apply tree_eqb_eq in E. subst. reflexivity.
 Qed.
+
+Lemma forallb_falsy_cast l : forallb md_falsy (map cast_entry l) = forallb md_falsy l.
+Proof. induction l as [|x l IH]; simpl; [reflexivity|]. rewrite md_falsy_cast, IH. reflexivity. Qed.
+
+Lemma map_cast_idem l : map cast_entry (map cast_entry l) = map cast_entry l.
+Proof. rewrite map_map. apply map_ext. intros x. apply cast_entry_idem. Qed.
+
+Lemma ctor_md_cast l : ctor_md (Some (map cast_entry l)) = ctor_md (Some l).
+Proof. unfold ctor_md. rewrite forallb_falsy_cast. destruct (forallb md_falsy l); [reflexivity|]. rewrite map_cast_idem. reflexivity. Qed.
+
+Lemma ctor_md_idem md : ctor_md (ctor_md md) = ctor_md md.
+Proof.
+  destruct md as [l|]; [|reflexivity]. unfold ctor_md at 2.
+  destruct (forallb md_falsy l) eqn:F; [reflexivity|]. rewrite ctor_md_cast. unfold ctor_md. rewrite F. reflexivity.
+Qed.
+
+(* selecting entries commutes with the normalisation (positions in range) *)
+Lemma take_md_ctor fancy md n :
+  md_ok md n -> Forall (fun i => i < n) fancy ->
+  ctor_md (take_md fancy (ctor_md md)) = ctor_md (take_md fancy md).
+Proof.
+  intros Hok Hb. destruct md as [l|]; [|reflexivity]. simpl in Hok. subst n.
+  unfold ctor_md at 2. destruct (forallb md_falsy l) eqn:F.
+  - simpl. symmetry. replace (forallb md_falsy (map (fun i => nth i l (I 0%Z)) fancy)) with true; [reflexivity|].
+    symmetry. apply forallb_forall. intros m Hm. apply in_map_iff in Hm. destruct Hm as [i [<- Hi]].
+    rewrite forallb_forall in F. apply F. apply nth_In. rewrite Forall_forall in Hb. apply Hb. exact Hi.
+  - unfold take_md, option_map.
+    replace (map (fun i => nth i (map cast_entry l) (I 0%Z)) fancy)
+      with (map cast_entry (map (fun i => nth i l (I 0%Z)) fancy)); [apply ctor_md_cast|].
+    rewrite map_map. apply map_ext_in. intros i Hi. symmetry.
+    apply (nth_map_lt cast_entry l i (I 0%Z) (I 0%Z)). rewrite Forall_forall in Hb. apply Hb. exact Hi.
+Qed.
+
+Lemma ctor_md_None_iff md : ctor_md md = None <-> forall i, entry_view md i = md_empty.
+Proof.
+  destruct md as [l|]; [|split; reflexivity]. unfold ctor_md. destruct (forallb md_falsy l) eqn:F.
+  - split; [|reflexivity]. intros _ i. simpl. destruct (nth_error l i) as [m|] eqn:E; [|reflexivity].
+    apply cast_entry_falsy. rewrite forallb_forall in F. apply F. eapply nth_error_In. exact E.
+  - split; [discriminate|]. intros H. exfalso.
+    assert (exists m, In m l /\ md_falsy m = false) as (m & Hm & Hf).
+    { clear H. induction l as [|x l IH]; simpl in F; [discriminate|]. destruct (md_falsy x) eqn:Ex.
+      - destruct (IH F) as (m & Hm & Hf). exists m. split; [right; exact Hm|exact Hf].
+      - exists x. split; [left; reflexivity|exact Ex]. }
+    destruct (In_nth_error _ _ Hm) as [i Hi]. specialize (H i). simpl in H. rewrite Hi in H.
+    unfold md_falsy in Hf. apply orb_false_iff in Hf. destruct Hf as [F1 F2].
+    unfold cast_entry in H. rewrite F1 in H. subst m. rewrite tree_eqb_refl in F2. discriminate.
+Qed.
+
+Lemma entry_view_take fancy md n k :
+  md_ok md n -> k < length fancy -> nth k fancy 0 < n ->
+  entry_view (take_md fancy md) k = entry_view md (nth k fancy 0).
+Proof.
+  intros Hok Hk Hb. destruct md as [l|]; [|reflexivity]. simpl in Hok. subst n. simpl.
+  rewrite (nth_error_nth' _ (I 0%Z)) by (rewrite map_length; exact Hk).
+  rewrite (nth_error_nth' l (I 0%Z)) by exact Hb.
+  rewrite (nth_map_lt (fun i => nth i l (I 0%Z)) fancy k 0 (I 0%Z)) by exact Hk. reflexivity.
+Qed.
+
+(* a table whose metadata of an axis is the normalised metadata of another, same ids: same view *)
+Lemma md_view_ctor b t t' x : ids b t' = ids b t -> mds b t' = ctor_md (mds b t) -> md_view b t' x = md_view b t x.
+Proof. intros E1 E2. rewrite !md_view_entry, E1, E2. destruct (pos x (ids b t)); [apply entry_view_ctor|reflexivity]. Qed.
+
+Lemma md_view_same b t t' x : ids b t' = ids b t -> mds b t' = mds b t -> md_view b t' x = md_view b t x.
+Proof. intros E1 E2. rewrite !md_view_entry, E1, E2. reflexivity. Qed.
 
 (* ---------------- lookup_all ---------------- *)
 Lemma lookup_all_spec order l fancy :
